@@ -88,6 +88,109 @@ CLASSIFIERS = {
 
 PLACEHOLDER = "(cid:%d)"
 
+
+# Inputs that touch state of the implementation which outlives one call (EncodingDB's class-level tables, the
+# resource manager's font cache), in the order they were evaluated in this process.
+HISTORY: List[Dict[str, Any]] = []
+
+
+def standalone_fails(inputs: List[Dict[str, Any]]) -> bool:
+    """Run the prelude (all but the last input) on the implementation without judging, then judge the last
+    input against the specification.  Used in a FRESH process to make a failure self-contained."""
+    for inp in inputs[:-1]:
+        try:
+            if inp.get("op") == "enc":
+                impl_get_encoding(inp["base"], diff_from_json(inp["differences"]))
+            elif inp.get("op") == "font":
+                impl_fonts([inp["font"]])
+        except Exception:  # noqa: BLE001
+            pass
+    inp = inputs[-1]
+    op = inp.get("op")
+    if op == "enc":
+        diff = diff_from_json(inp["differences"])
+        codes = [inp["code"]] if "code" in inp else range(256)
+        return any(not enc_cell_ok(inp["base"], diff, c) for c in codes)
+    if op == "font":
+        return font_first_bad(inp["font"], impl_fonts(inp.get("doc", []) + [inp["font"]])[-1]) is not None
+    if op == "table-indep":
+        only = (inp["table"].replace("codec-impl", "codec"), inp["key"])
+        return any(exp != got for _, _, exp, got in independent_checks(only))
+    return True
+
+
+def fails_in_fresh_process(inputs: List[Dict[str, Any]]) -> Optional[bool]:
+    import subprocess
+    import sys as _sys
+    code = ("import sys, json; sys.path.insert(0, %r); from harness.props import c06; "
+            "print('FAILS' if c06.standalone_fails(json.load(sys.stdin)) else 'PASSES')" % C.TOOLS)
+    try:
+        p = subprocess.run([_sys.executable, "-c", code], input=json.dumps(inputs).encode(), stdout=subprocess.PIPE,
+                           stderr=subprocess.DEVNULL, timeout=300)
+    except Exception:  # noqa: BLE001
+        return None
+    out = p.stdout.decode("utf-8", "replace")
+    return True if "FAILS" in out else False if "PASSES" in out else None
+
+
+def isolate(f: C.Failure, upto: int) -> bool:
+    """If the failing input does not fail on its own in a fresh process, the failure depends on what the
+    implementation was asked before: find a short prelude from this run's history that reproduces it and store
+    it with the input, so that the replay file is self-contained.  True = the stored input reproduces."""
+    inp = f.input
+    if not isinstance(inp, dict) or inp.get("op") not in ("enc", "font", "table-indep"):
+        return True
+    alone = fails_in_fresh_process([inp])
+    if alone is not False:
+        return True
+    hist = HISTORY[:upto]
+    if not hist or fails_in_fresh_process(hist + [inp]) is not True:
+        f.tags["state_dependent"] = "not reproduced from this run's history"
+        f.what += " [seen only inside this run]"
+        return False
+    lo, hi = 1, len(hist)          # smallest prefix length that reproduces
+    while lo < hi:
+        mid = (lo + hi) // 2
+        if fails_in_fresh_process(hist[:mid] + [inp]) is True:
+            hi = mid
+        else:
+            lo = mid + 1
+    prelude = hist[:lo]
+    if fails_in_fresh_process([prelude[-1], inp]) is True:
+        prelude = [prelude[-1]]
+    inp["prelude"] = prelude
+    f.tags["state_dependent"] = "fails only after %d earlier input(s)" % len(prelude)
+    f.what += " [depends on earlier calls: state carried across calls]"
+    return True
+
+
+_ISO_DONE: Dict[str, bool] = {}
+_ISO_SUFFIX: Dict[str, str] = {}
+_ISO_TRIES = [0]
+
+
+def cfail(ctx: C.Ctx, f: C.Failure) -> None:
+    """ctx.fail with a cap per kind of failure, so that one noisy kind cannot crowd out the others; for each
+    kind, failures are checked in a fresh process until one is self-contained (see `isolate`)."""
+    base = f.what
+    k = sum(1 for g in ctx.failures if g.what.split(" [")[0] == base)
+    if k >= 20:
+        return
+    if not _ISO_DONE.get(base) and _ISO_TRIES[0] < 12:
+        _ISO_TRIES[0] += 1
+        _ISO_DONE[base] = isolate(f, len(HISTORY))
+        if _ISO_DONE[base]:
+            # make sure this self-contained failure is the one reported for its kind
+            _ISO_SUFFIX[base] = f.what[len(base):]
+            for g in ctx.failures:
+                if g.what == base:
+                    g.what = f.what
+            ctx.failures.insert(0, f)
+            return
+    f.what = base + _ISO_SUFFIX.get(base, "")
+    ctx.fail(f)
+
+
 # ---------------------------------------------------------------------------------------------
 # data (read from the implementation under test as *data*; the tables are tied to Lean separately)
 
@@ -666,26 +769,18 @@ def fonts_pdf(fss: List[Dict[str, Any]]) -> Tuple[bytes, List[int]]:
     return W.build_pdf(objs, 1), order
 
 
-_IMPL_DOCS = [0]
-
-
-def impl_fonts(fss: List[Dict[str, Any]]) -> List[Any]:
-    """Per font: list of 256 (text, adv) read from LTChar, or 'EXC:Type', or 'DIFF:revisit' when a later use of
-    the same font object gives other glyphs.  One resource manager / device / interpreter per DOCUMENT, as
-    in normal use (font caching switched on for every other document)."""
+def _impl_fonts_once(pdf: bytes, order: List[int], n: int, caching: bool) -> List[Any]:
     from pdfminer.converter import PDFPageAggregator
     from pdfminer.layout import LTChar
     from pdfminer.pdfdocument import PDFDocument
     from pdfminer.pdfinterp import PDFPageInterpreter, PDFResourceManager
     from pdfminer.pdfpage import PDFPage
     from pdfminer.pdfparser import PDFParser
-    pdf, order = fonts_pdf(fss)
     doc = PDFDocument(PDFParser(io.BytesIO(pdf)))
-    _IMPL_DOCS[0] += 1
-    rm = PDFResourceManager(caching=(_IMPL_DOCS[0] % 2 == 1))
+    rm = PDFResourceManager(caching=caching)
     dev = PDFPageAggregator(rm, laparams=None)
     interp = PDFPageInterpreter(rm, dev)
-    out: List[Any] = [None] * len(fss)
+    out: List[Any] = [None] * n
     for k, page in enumerate(PDFPage.create_pages(doc)):
         i = order[k]
         try:
@@ -698,6 +793,20 @@ def impl_fonts(fss: List[Dict[str, Any]]) -> List[Any]:
         elif out[i] != res:
             out[i] = "DIFF:revisit"
     return [o if o is not None else "EXC:missing-page" for o in out]
+
+
+def impl_fonts(fss: List[Dict[str, Any]]) -> List[Any]:
+    """Per font: list of 256 (text, adv) read from LTChar, or 'EXC:Type', or 'DIFF:revisit' when a later use of
+    the same font object (or the run without font cache) gives other glyphs.  One resource manager / device /
+    interpreter per DOCUMENT, as in normal use.  Large documents are read with the font cache on or off
+    depending on their content (deterministic), small ones (replays, shrinking) both ways."""
+    import hashlib
+    pdf, order = fonts_pdf(fss)
+    if len(fss) <= 8:
+        a = _impl_fonts_once(pdf, order, len(fss), True)
+        b = _impl_fonts_once(pdf, order, len(fss), False)
+        return [x if x == y else "DIFF:revisit" for x, y in zip(a, b)]
+    return _impl_fonts_once(pdf, order, len(fss), hashlib.sha1(pdf).digest()[0] % 2 == 0)
 
 
 # ---------------------------------------------------------------------------------------------
@@ -1121,7 +1230,7 @@ def check_names(ctx: C.Ctx, names: List[Tuple[Any, List[str]]], label: str = "")
         if dom:
             ctx.branch("name:judged")
             if got != exp:
-                ctx.fail(C.Failure(
+                cfail(ctx, C.Failure(
                     "name2unicode differs from the Adobe Glyph List algorithm",
                     {"op": "name", "name": name_arg(tok)}, exp, impl,
                     {"op": "name", "kinds": kinds, "raised": impl.startswith("EXC"),
@@ -1164,6 +1273,7 @@ def check_encodings(ctx: C.Ctx, cases: List[Tuple[str, List[Any], List[str]]]) -
     meta: List[Any] = []
     for encname, diff, kinds in cases:
         impl = impl_get_encoding(encname, diff)
+        HISTORY.append({"op": "enc", "base": encname, "differences": diff_to_json(diff)})
         ctx.case(("enc", encname, diff), bool(diff), sample={"base": encname, "differences": diff_to_json(diff)[:12]},
                  branch="enc:" + (encname if encname in ENC_COL else "other-name"))
         for k in kinds:
@@ -1184,7 +1294,7 @@ def check_encodings(ctx: C.Ctx, cases: List[Tuple[str, List[Any], List[str]]]) -
             t = agl_spec(s)
             exp_cells.append(cps(t) if t != "" else "~")
         if impl.startswith("EXC"):
-            ctx.fail(C.Failure("EncodingDB.get_encoding raised", {"op": "enc", "base": encname,
+            cfail(ctx, C.Failure("EncodingDB.get_encoding raised", {"op": "enc", "base": encname,
                                                                   "differences": diff_to_json(diff)},
                                "a table", impl, {"op": "enc", "raised": True}))
         else:
@@ -1231,7 +1341,7 @@ def report_enc_failure(ctx: C.Ctx, encname: str, diff: List[Any], code: int, exp
     s = name_of_tok(nm) if nm is not None else None
     tags = {"op": "enc", "code": code, "from_differences": from_diff,
             "spec_undefined": nm is None or agl_spec(s) == "", "got_defined": got != "~"}
-    ctx.fail(C.Failure("EncodingDB.get_encoding: a code does not get the character of its glyph name "
+    cfail(ctx, C.Failure("EncodingDB.get_encoding: a code does not get the character of its glyph name "
                        "(last Differences assignment, else base encoding)",
                        {"op": "enc", "base": encname, "differences": diff_to_json(small), "code": code},
                        exp, got, tags))
@@ -1376,6 +1486,8 @@ def check_fonts(ctx: C.Ctx, fonts: List[Tuple[Dict[str, Any], List[str]]], chunk
             ctx.notes.append("font cases cut short by the time budget")
             break
         part = fonts[i:i + chunk]
+        for fs, _ in part:
+            HISTORY.append({"op": "font", "font": fs})
         try:
             res = impl_fonts([fs for fs, _ in part])
         except Exception as e:  # noqa: BLE001  - the document as a whole failed: evaluate one by one
@@ -1395,12 +1507,33 @@ def check_fonts(ctx: C.Ctx, fonts: List[Tuple[Dict[str, Any], List[str]]], chunk
             bad = font_first_bad(fs, got)
             if bad is not None:
                 code, kind, exp, g = bad
-                small = shrink_font(fs, kind)
-                b2 = font_first_bad(small, impl_fonts([small])[0])
-                if b2 is None or b2[1] != kind:
+                inp: Dict[str, Any]
+                alone = font_first_bad(fs, impl_fonts([fs])[0])
+                if alone is not None and alone[1] == kind:
+                    small = shrink_font(fs, kind)
+                    b2 = font_first_bad(small, impl_fonts([small])[0])
+                    if b2 is None or b2[1] != kind:
+                        small, b2 = fs, bad
+                    inp = {"op": "font", "font": small, "code": b2[0]}
+                else:
+                    # fails only together with other fonts of the same document (shared resource manager):
+                    # keep the smallest set of the document's other fonts that reproduces it
+                    others = [f2 for f2, _ in part if f2 is not fs]
+
+                    def with_doc(sub):
+                        try:
+                            r = font_first_bad(fs, impl_fonts(list(sub) + [fs])[-1])
+                        except Exception:  # noqa: BLE001
+                            return False
+                        return r is not None and r[1] == kind
                     small, b2 = fs, bad
-                ctx.fail(C.Failure(WHAT[kind], {"op": "font", "font": small, "code": b2[0]}, b2[2], b2[3],
-                                   font_failure_tags(small, b2[0], kind, kinds)))
+                    inp = {"op": "font", "font": fs, "code": bad[0]}
+                    suffix = " [seen only inside this run]"
+                    if others and with_doc(others):
+                        inp["doc"] = C.ddmin(others, with_doc, 60) if len(others) > 1 else others
+                        suffix = " [together with other fonts of the document]"
+                cfail(ctx, C.Failure(WHAT[kind] + (suffix if alone is None or alone[1] != kind else ""),
+                                     inp, b2[2], b2[3], font_failure_tags(small, b2[0], kind, kinds)))
             lines.append("font " + font_line(fs))
             meta.append(("font", fs, got))
             lines.append("fontspec " + font_line(fs))
@@ -1569,7 +1702,7 @@ def run_refdata(ctx: C.Ctx, only: Optional[Tuple[str, str]] = None) -> None:
     d = data()
 
     def bad(table, key, exp, got):
-        ctx.fail(C.Failure("font data table differs from the reference copy of the document it transcribes",
+        cfail(ctx, C.Failure("font data table differs from the reference copy of the document it transcribes",
                            {"op": "table", "table": table, "key": key}, exp, got, {"op": "table", "table": table}))
 
     gl = {k: [ord(c) for c in v] for k, v in d["gl"].items()}
@@ -1690,7 +1823,7 @@ def run_independent(ctx: C.Ctx, only: Optional[Tuple[str, str]] = None) -> None:
     for table, key, exp, got in independent_checks(only):
         ctx.case(("indep", table, key, repr(exp)), True, branch="independent:" + table)
         if exp != got:
-            ctx.fail(C.Failure("font data table differs from an independent source (platform codec / unicodedata / "
+            cfail(ctx, C.Failure("font data table differs from an independent source (platform codec / unicodedata / "
                                "AGL rule)", {"op": "table-indep", "table": table, "key": key},
                                None if exp is None else (cps(exp) if isinstance(exp, str) else exp),
                                None if got is None else (cps(got) if isinstance(got, str) else got),
@@ -1733,6 +1866,14 @@ def replay(ctx: C.Ctx, doc, from_corpus: bool = False) -> None:
     inp = doc.get("input", {})
     label = "corpus" if from_corpus else "replay"
     op = inp.get("op")
+    for pre in inp.get("prelude", []):        # state carried across calls: what the implementation was asked before
+        try:
+            if pre.get("op") == "enc":
+                impl_get_encoding(pre["base"], diff_from_json(pre["differences"]))
+            elif pre.get("op") == "font":
+                impl_fonts([pre["font"]])
+        except Exception:  # noqa: BLE001
+            pass
     if op == "name":
         a = inp["name"]
         tok = ("s", bytes.fromhex(a[1:] if a[1:] != "-" else "").decode("utf-8")) if a[0] == "s" \
@@ -1741,7 +1882,7 @@ def replay(ctx: C.Ctx, doc, from_corpus: bool = False) -> None:
     elif op == "enc":
         check_encodings(ctx, [(inp["base"], diff_from_json(inp["differences"]), [label])])
     elif op == "font":
-        check_fonts(ctx, [(inp["font"], [label])])
+        check_fonts(ctx, [(f2, [label + ":context"]) for f2 in inp.get("doc", [])] + [(inp["font"], [label])])
     elif op == "table":
         run_refdata(ctx, (inp["table"], inp["key"]))
     elif op == "table-indep":
